@@ -235,6 +235,15 @@ def run(chk, prog):
     rs = Evaluator(prog).eval_fn(sf, m)
     cat = [x for x in subterms(rs.ret) if is_call(x, "concatenate")]
     okc = len(cat) == 1 and is_t(cat[0][2][0], "list") and len(cat[0][2][0][1]) == 2 and mentions(cat[0][2][0][1][0], P("arr1")) and mentions(cat[0][2][0][1][1], P("arr2")) and not mentions(cat[0][2][0][1][0], P("arr2"))
+    # shape discipline: the batch keeps its leaf shape and the retained leaf gains exactly ONE leading axis - nothing is flattened (reshape(-1, 1)) or squeezed:
+    # with a vector-valued leaf (the logits argument of a categorical) the old reshape / squeeze hack raised in concatenate, and with K = 1 the squeeze
+    # turned the (1,) batch into a scalar (vmap over it raised): estimate_logpdf failed for ImportanceK(k = 1) and for every target with a vector leaf
+    shape_ops = [x for x in subterms(rs.ret) if is_call(x, "squeeze", "reshape", "ravel", "flatten", "atleast_1d", "atleast_2d") or (is_mcall(x, "reshape") or is_mcall(x, "squeeze") or is_mcall(x, "ravel"))]
+    second = cat[0][2][0][1][1] if okc else None
+    one_axis = second is not None and ((is_t(second, "index") and second[2] in (C(None), ("global", "jax.numpy.newaxis"))) or (is_call(second, "expand_dims") and (second[2][1:] == (C(0),) or dict(second[3]).get("axis") == C(0))))
+    first_raw = okc and not any(is_call(x, "reshape", "squeeze") or is_mcall(x, "reshape") for x in subterms(cat[0][2][0][1][0]))
+    chk.require(bool(okc and one_axis and first_raw and not shape_ops and dict(cat[0][3]).get("axis", C(0)) == C(0)), "RETAINED-SCORE", "stack_to_first_dim/shape", "the retained leaf is appended as one more row of the batch",
+                derived=show(rs.ret)[:220], expected="concatenate([batch, leaf[None]], axis=0): leaf shapes untouched (no reshape(-1, 1) / squeeze)", where=f"{m.rel}:{sf.lineno}")
     chk.require(okc, "RETAINED-SCORE", "stack_to_first_dim", "second argument (the retained particle) goes last", derived=show(cat[0])[:200] if cat else "none", expected="concatenate([arr1, arr2], axis=0)", where=f"{m.rel}:{sf.lineno}")
     # ---------------------------------------------------------------- Target
     T = prog.cls("Target", SP)
